@@ -24,7 +24,14 @@ type zzContext struct {
 	serialiser app.TextSerialiser
 	config     *app.Config
 	bookmarks  app.BookmarksCollection
+	clock      []gotime.Time // scripted clock readings (used one per Now() call, the last one repeats)
+	clockPos   int
+	stopAfter  int // Print calls with the cursor-reset sequence before the repeat loop is cut (0 = never)
+	resets     int
 }
+
+// zzStopLoop is the sentinel with which the harness cuts the endless `klog pause` loop.
+type zzStopLoop struct{}
 
 func newZZContext(fileText string, now gotime.Time) *zzContext {
 	config := app.NewDefaultConfig(tf.COLOUR_THEME_NO_COLOUR)
@@ -36,11 +43,28 @@ func newZZContext(fileText string, now gotime.Time) *zzContext {
 	}
 }
 
-func (ctx *zzContext) Print(s string)                      { ctx.printed += s }
+func (ctx *zzContext) Print(s string) {
+	if ctx.stopAfter > 0 && s == "\033[H\033[J" {
+		ctx.resets++
+		if ctx.resets > ctx.stopAfter {
+			panic(zzStopLoop{})
+		}
+	}
+	ctx.printed += s
+}
 func (ctx *zzContext) ReadLine() (string, app.Error)       { return "", nil }
 func (ctx *zzContext) KlogConfigFolder() app.File          { return app.NewFileOrPanic("/tmp/zz-klog-config") }
 func (ctx *zzContext) Meta() app.Meta                      { return app.Meta{Version: "v0.0", SrcHash: "abc1234"} }
-func (ctx *zzContext) Now() gotime.Time                    { return ctx.now }
+func (ctx *zzContext) Now() gotime.Time {
+	if len(ctx.clock) == 0 {
+		return ctx.now
+	}
+	t := ctx.clock[ctx.clockPos]
+	if ctx.clockPos < len(ctx.clock)-1 {
+		ctx.clockPos++
+	}
+	return t
+}
 func (ctx *zzContext) Execute(_ command.Command) app.Error { return nil }
 func (ctx *zzContext) Editors() (string, []command.Command) {
 	return "", nil
